@@ -40,6 +40,8 @@ def reference(kind, nq, ops, vs):
                         for i in pre:
                             if kind == "durq" or vs[i] not in q:
                                 q.append(vs[i])
+        elif name == "scribble":
+            exp = None                      # what the caller does with ITS objects afterwards changes nothing
         elif name == "sync":
             exp = True if op[2] else None     # a live queue is in sync: only a forced sync does anything (and changes nothing)
         else:
@@ -94,9 +96,10 @@ class C23(core.Check):
     level_note = ""
     quick_n = 400
     thorough_n = 6000
-    rule = ("case = (durq|dusq, 1-2 queue keys held in one Hold over one Subery, <= 30 ops push/pull/pull(emptive=False)/extend|update/clear/remove/count/reopen "
+    rule = ("kinds wdurq|wdusq run the same histories over the WebDuror backend (scripted in-memory pyscript.storage; sessions end by aclose / flush+close / close); values include field-less marker doms and, oracle-only, falsy doms (expected to behave like any value); "
+            "case = (durq|dusq, 1-2 queue keys held in one Hold over one Subery, <= 30 ops push/pull/pull(emptive=False)/extend|update/clear/remove/count/reopen "
             "over 5 values with duplicates (plus, rarely, the ==-equal values Bag(1)/Bag(1.0)/Bag(True)), and REJECTED calls: None / a str / an int as push, remove, count argument or at any position of an extend|update batch (the adapter records the HierError and continues); reopen = close the lmdb env, open it again, new Hold, "
-            "fresh OR PRELOADED queue objects - Durq(vals)/Dusq(vals) with the same / permuted / same-length / shorter / longer content than the durable copy - or the SAME objects re-injected ('keep'), via every argument form of Hold(...) / Hold.update(...) / hold[k]= (dict, list of pairs, zip, generator, iterator, **kwa, mixed, tuple keys; form chosen by history length and reopen count), on a new or the same re-opened Subery; sync(force) on live queues; fresh equal value objects per call, Dusq arguments and results scribbled on; sibling sub-db sentinel). After every op list(queue) and the durable list at the key are observed for every queue. "
+            "fresh OR PRELOADED queue objects - Durq(vals)/Dusq(vals) with the same / permuted / same-length / shorter / longer content than the durable copy - or the SAME objects re-injected ('keep'), via every argument form of Hold(...) / Hold.update(...) / hold[k]= (dict, list of pairs, zip, generator, iterator, **kwa, mixed, tuple keys; form chosen by history length and reopen count), on a new or the same re-opened Subery; sync(force) on live queues; fresh equal value objects per call, Dusq arguments (push, update with deep default/True/False, constructor preload) and results scribbled on immediately and again by 'scribble' ops later; Durq + scribble = oracle-only witnesses of known finding C23-K2; sibling sub-db sentinel). After every op list(queue) and the durable list at the key are observed for every queue. "
             "non-trivial = at least one reopen with a non-empty queue and >= 3 mutating ops; distinct by request line")
     trusted_base = ["lmdb modelled as a sorted association list (exercised by the correspondence on real lmdb, including close/reopen of the environment)",
                     "translator harness/extract/store.py (suffix constants)",
@@ -115,6 +118,10 @@ class C23(core.Check):
             ("dusq", q, [("push", 0, 1), ("push", 0, 5), ("reopen",), ("pull", 0), ("pull", 0)]),
             ("dusq", q, [("push", 0, 1), ("push", 0, 5), ("push", 0, 6), ("reopen",), ("pull", 0), ("pull", 0)]),
             ("dusq", q, [("extend", 0, [1, 5, 2]), ("remove", 0, 5), ("reopen",)]),
+            # K2: Durq and caller-side mutation of handed-over objects (push, extend, constructor preload)
+            ("durq", q, [("push", 0, 1), ("scribble", 0)]),
+            ("durq", q, [("extend", 0, [0, 3, 1]), ("scribble", 0), ("pull", 0), ("reopen",), ("pull", 0)]),
+            ("durq", q, [("reopen", [[0, 1]]), ("scribble", 0), ("pull", 0)]),
         ]
 
     def corpus(self):
@@ -138,6 +145,23 @@ class C23(core.Check):
             ("durq", (b"q", b"r"), [("push", 0, 0), ("push", 1, 1), ("reopen", ["keep", "keep"]), ("push", 0, 2), ("pull", 1), ("reopen", ["keep", [3]]), ("pull", 0), ("push", 1, 0),
                                     ("reopen", [None, "keep"]), ("pull", 0), ("pull", 1), ("reopen", ["keep", "keep"]), ("pull", 0), ("pull", 1)]),
             ("dusq", q, [("extend", 0, [0, 1]), ("reopen", ["keep"]), ("push", 0, 1), ("push", 0, 2), ("reopen", ["keep"]), ("remove", 0, 0), ("sync", 0, True), ("reopen", [None]), ("pull", 0)]),
+            # Dusq copies whatever it is handed (constructor preload, push, update with either `deep` flag) and whatever it hands out:
+            # the caller mutating its own objects later changes nothing
+            ("dusq", q, [("reopen", [[0, 1, 2]]), ("scribble", 0), ("push", 0, 0), ("extend", 0, [4, 1]), ("extend", 0, [2, 4]), ("extend", 0, [0]), ("scribble", 0), ("remove", 0, 1), ("pull", 0),
+                         ("reopen", [[4, 4]]), ("scribble", 0), ("pull", 0), ("pull", 0), ("pull", 0), ("reopen", [[1, 0]]), ("scribble", 0), ("push", 0, 1), ("pull", 0)]),
+            # field-less marker doms and an empty-string value next to other members: remove one, the others stay (mutable and frozen)
+            ("dusq", q, [("extend", 0, [7, 0, 8, 9, 1]), ("remove", 0, 7), ("remove", 0, 9), ("reopen",), ("remove", 0, 8), ("pull", 0), ("reopen",), ("pull", 0), ("pull", 0)]),
+            ("durq", q, [("extend", 0, [7, 7, 8, 9]), ("count", 0, 7), ("pull", 0), ("reopen",), ("pull", 0), ("pull", 0), ("pull", 0), ("reopen",)]),
+            # the WebDuror backend: sessions that DRAIN a whole sub-db (last pull / remove / clear) before the store is closed and reopened
+            ("wdurq", q, [("push", 0, 0), ("reopen",), ("pull", 0), ("reopen",), ("pull", 0), ("push", 0, 1), ("push", 0, 2), ("clear", 0), ("reopen",), ("pull", 0)]),
+            ("wdusq", q, [("extend", 0, [0, 1]), ("reopen",), ("remove", 0, 0), ("remove", 0, 1), ("reopen",), ("pull", 0), ("push", 0, 2), ("pull", 0), ("reopen",), ("reopen",), ("pull", 0)]),
+            ("wdurq", (b"q", b"r"), [("push", 0, 0), ("push", 1, 1), ("reopen",), ("pull", 0), ("pull", 1), ("reopen", [[2], None]), ("pull", 0), ("pull", 1), ("reopen",), ("pull", 0)]),
+            ("wdusq", (b"a", b"a.b"), [("extend", 0, [0, 1, 2]), ("push", 1, 3), ("reopen", ["keep", "keep"]), ("clear", 0), ("pull", 1), ("reopen",), ("pull", 0), ("pull", 1)]),
+            # doms that are FALSY (class defines __bool__ / __len__) are values like any other (regression of C23-K3, fixed da684ac)
+            ("dusq", q, [("extend", 0, [1, 10, 2]), ("remove", 0, 10), ("reopen",), ("pull", 0)]),
+            ("dusq", q, [("push", 0, 11), ("push", 0, 0), ("remove", 0, 11), ("pull", 0), ("reopen",)]),
+            ("wdusq", q, [("extend", 0, [0, 10]), ("remove", 0, 10), ("reopen",), ("pull", 0)]),
+            ("durq", q, [("extend", 0, [10, 11, 10]), ("count", 0, 10), ("pull", 0), ("reopen",), ("pull", 0)]),
             # REJECTED operations (argument None / a foreign object at every position of a batch): no effect, history goes on
             ("durq", q, [("push", 0, 0), ("extend", 0, [1, -1]), ("extend", 0, [1, 2, -2, 0]), ("extend", 0, [-3, 1]), ("push", 0, -1), ("push", 0, -2),
                          ("count", 0, -1), ("pull", 0), ("reopen",), ("pull", 0), ("extend", 0, [1, -1, 2]), ("reopen",), ("pull", 0)]),
@@ -164,7 +188,12 @@ class C23(core.Check):
             for n in (1, 2, 3, 4):
                 for h in itertools.product(alpha, repeat=n):
                     out.append((kind, (b"q",), list(h)))
-        return out, "every history of <= 4 ops from {push v0, push v1, pull, reopen fresh, reopen preloaded [v0,v1], reopen preloaded [v1], reopen with the same object, sync(force)} and every history of <= 4 ops from {push v0, push v1, pull, extend [v1,v0,v1], extend [v1,None,v0] (rejected), clear, reopen (+ remove v0, remove v1 for dusq)} on one queue"
+        for kind in ("wdurq", "wdusq"):
+            alpha = [("push", 0, 0), ("push", 0, 1), ("pull", 0), ("clear", 0), ("reopen",), ("reopen", [[1]])] + ([("remove", 0, 0)] if kind == "wdusq" else [])
+            for n in (1, 2, 3, 4):
+                for h in itertools.product(alpha, repeat=n):
+                    out.append((kind, (b"q",), list(h)))
+        return out, "WebDuror backend: every history of <= 4 ops from {push v0, push v1, pull, clear, reopen, reopen preloaded [v1] (+ remove v0)}; lmdb: every history of <= 4 ops from {push v0, push v1, pull, reopen fresh, reopen preloaded [v0,v1], reopen preloaded [v1], reopen with the same object, sync(force)} and every history of <= 4 ops from {push v0, push v1, pull, extend [v1,v0,v1], extend [v1,None,v0] (rejected), clear, reopen (+ remove v0, remove v1 for dusq)} on one queue"
 
     def generate(self, rng, n, tier):
         for case in self._generate(rng, n, tier):
@@ -175,8 +204,11 @@ class C23(core.Check):
     def _generate(self, rng, n, tier):
         for _ in range(n):
             kind = rng.choice(["durq", "dusq", "dusq"])
+            if rng.random() < 0.3:
+                kind = "w" + kind                 # the WebDuror backend
             keys = rng.choice(KEYSETS)
-            dom = st.CLEAN[:rng.choice([2, 3, 5])] if rng.random() < 0.93 else (1, 5, 6, 0)
+            r0 = rng.random()
+            dom = st.CLEAN[:rng.choice([2, 3, 5])] if r0 < 0.78 else st.MARKERS[:rng.choice([3, 5])] if r0 < 0.92 else (1, 5, 6, 0) if r0 < 0.98 else (1, 10, 11, 7)
             nops = rng.choice([3, 6, 10, 15, 20, 30])
             preop = rng.choice([0.1, 0.3, 0.5])
             pbad = rng.choice([0.0, 0.1, 0.25])
@@ -213,11 +245,13 @@ class C23(core.Check):
                 qi = rng.randrange(len(keys))
                 v = rng.choice(dom)
                 names = ["push"] * 5 + ["pull"] * 3 + ["pullx", "extend", "extend", "clear"]
-                names += ["remove", "remove"] if kind == "dusq" else ["count"]
+                names += ["remove", "remove", "scribble"] if kind.endswith("dusq") else ["count"]
                 name = rng.choice(names)
                 bad = rng.random() < pbad
                 if name in ("push", "remove", "count"):
                     ops.append((name, qi, rng.choice([-1, -2, -3]) if bad else v))
+                elif name == "scribble":
+                    ops.append((name, qi))
                 elif name == "extend":
                     batch = [rng.choice(dom) for _ in range(rng.choice([0, 1, 2, 3, 4]))]
                     if bad:          # an invalid element at a random position of the batch (first, middle, last)
@@ -229,8 +263,34 @@ class C23(core.Check):
                     ops.append((name, qi))
             yield (kind, keys, ops[:30])
 
+    @staticmethod
+    def used(ops):
+        out = set()
+        for o in ops:
+            if o[0] in ("push", "remove", "count"):
+                out.add(o[2])
+            elif o[0] == "extend":
+                out.update(o[2])
+            elif o[0] == "reopen" and len(o) > 1:
+                for pre in o[1]:
+                    if pre not in (None, "keep"):
+                        out.update(pre)
+        return out
+
+    def oracle_only(self, case):
+        """carried by the oracle alone (the Lean model has values = serialisations: no object identity, no truthiness):
+        Durq histories in which the caller mutates handed-over objects (C23-K2), histories with falsy dom values (must behave like any other value; regression of C23-K3)"""
+        kind = case[0].lstrip("w")
+        return (kind == "durq" and any(o[0] == "scribble" for o in case[2])) or bool(self.used(case[2]) & set(st.FALSY))
+
+    def compare_view(self, case, obs):
+        return "oracle-only" if self.oracle_only(case) else sx.dumps(obs)
+
     def request(self, case):
         kind, keys, ops = case
+        kind = kind.lstrip("w")          # "wdurq" / "wdusq": same history over the WebDuror backend
+        if self.oracle_only(case):
+            return ("oracleonly", kind, ("keys",) + tuple(keys), ("ops",) + tuple(tuple(tuple(x) if isinstance(x, list) else x for x in o) for o in ops))
         tab = st.c23_table()
 
         def val(i):
@@ -247,6 +307,8 @@ class C23(core.Check):
                 rops.append(("reopen",) + tuple("keep" if pre == "keep" else tuple(val(i) for i in (pre or ())) for pre in o[1]))
             elif o[0] == "sync":
                 rops.append((o[0], o[1], bool(o[2])))
+            elif o[0] == "scribble":
+                rops.append(("sync", o[1], False))     # for the model: an operation that answers None and changes nothing
             else:
                 rops.append(tuple(o))
         return (kind, ("keys",) + tuple(keys), ("table",) + tuple(val(i) for i in range(st.NVALS)), ("ops",) + tuple(rops))
@@ -256,6 +318,7 @@ class C23(core.Check):
 
     def oracle(self, case, obs):
         kind, keys, ops = case
+        kind = kind.lstrip("w")          # "wdurq" / "wdusq": same history over the WebDuror backend
         vs = st._vals()
         ANY = reference.ANY
         bad = []
@@ -282,6 +345,11 @@ class C23(core.Check):
 
     def known(self, case, obs, clauses):
         kind, keys, ops = case
+        kind = kind.lstrip("w")          # "wdurq" / "wdusq": same history over the WebDuror backend
+        if self.oracle_only(case):
+            # K2: Durq keeps references to the caller's mutable values (no copy on push / extend / preload / pull / iteration)
+            ok = {"durable-copy-differs-from-memory", "memory-content", "pull-result", "pullx-result", "reopen-does-not-restore", "count-result"}
+            return "C23-K2" if set(clauses) <= ok else None
         if kind != "dusq":
             return None
         # K1 (F38): two different values of the history are == but serialise differently, and both reach the same set
@@ -302,13 +370,16 @@ class C23(core.Check):
 
     def nontrivial(self, case, obs):
         kind, keys, ops = case
+        kind = kind.lstrip("w")          # "wdurq" / "wdusq": same history over the WebDuror backend
         mut = sum(1 for o in ops if o[0] in ("push", "pull", "pullx", "extend", "clear", "remove"))
         ro = any(o[0] == "reopen" and any(m for m, _ in s[1]) for o, s in zip(ops, obs))
         return mut >= 3 and ro
 
     def features(self, case, obs):
         kind, keys, ops = case
-        f = [kind, f"{kind}:ops~{(len(ops) + 4) // 5 * 5}", f"queues={len(keys)}", f"reopens={min(sum(1 for o in ops if o[0] == 'reopen'), 5)}"]
+        backend = "backend:web" if kind.startswith("w") else "backend:lmdb"
+        kind = kind.lstrip("w")
+        f = [kind, backend, f"{kind}:ops~{(len(ops) + 4) // 5 * 5}", f"queues={len(keys)}", f"reopens={min(sum(1 for o in ops if o[0] == 'reopen'), 5)}"]
         f += sorted({f"{kind}:{o[0]}" for o in ops})
         f.append(f"maxlen~{min(max([len(m) for s in obs for m, _ in s[1]] + [0]), 8)}")
         if any(isinstance(s[0], tuple) and s[0][:1] == ("raise",) for s in obs):
@@ -319,6 +390,7 @@ class C23(core.Check):
 
     def shrink(self, case):
         kind, keys, ops = case
+        kind = kind.lstrip("w")          # "wdurq" / "wdusq": same history over the WebDuror backend
         for i in range(len(ops)):
             yield (kind, keys, ops[:i] + ops[i + 1:])
         for i, o in enumerate(ops):
@@ -328,6 +400,7 @@ class C23(core.Check):
 
     def mutate(self, rng, case):
         kind, keys, ops = case
+        kind = kind.lstrip("w")          # "wdurq" / "wdusq": same history over the WebDuror backend
         out = list(self.shrink(case))[:30]
         for _ in range(30):
             i = rng.randrange(len(ops) + 1)
@@ -341,7 +414,7 @@ C23.level_text = (
     "FIFO queues / insertion-ordered sets, i.e. durable mirror, reopen restores and key independence in one statement), durq_refines_fifo / dusq_refines_oset_partial (single queue), durable_mirror, "
     "reopen_restores, no_mismatch_error, spec_other_queue_unchanged, dusq_content_nodup; rejected calls (None / foreign object as argument or at any position of a batch) are part of the history language of hold_refines (MOp.a + validate): rejected_op_is_identity (store, addressed queue and all other queues unchanged, result False / HierError / 0), rejected_iff_bad_argument; reopen injects objects built from ANY preload (Durq(vals)/Dusq(vals); fresh = empty preload) and sync(force) is an operation: syncBody models what the code does (non-empty durable copy wins, an empty one is overwritten by pinning the preload; the SAME object re-injected is left alone), reopen_restores and spec_reopen_any_preload hold for every preload at every position. Dusq theorems are _partial under '== coincides with equality of serialisations' (F38; witness "
     "dusq_mirror_fails_without_guard, known finding C23-K1); all under the exact key guard of C24 at the queue keys. F37 (Dusq.remove always raised) is fixed. "
-    "Tied to the code by a differential run on real lmdb with reopen at every gap and 1-2 queues per Hold.")
+    "Tied to the code by a differential run on real lmdb AND on the WebDuror backend (scripted pyscript.storage) with reopen at every gap and 1-2 queues per Hold; oracle-only: Durq + caller-side mutation (C23-K2), falsy dom values (regression of the repaired C23-K3).")
 C23.level_note = ("Trusted: Lean kernel + propext/Classical.choice/Quot.sound; the sorted-list model of lmdb and of env close/open; the abstraction of values to (==-class, serialisation). "
                   "Crash inside a transaction is not modelled (the property quantifies over reopen between operations).")
 
